@@ -344,6 +344,19 @@ def binarize_guard(prog: Program) -> RuleResult:
         raise AnalysisError("binarize: product loop does not unpack two refinements")
     src: Dict[str, str] = {}
     for var, arg in zip(loop.target.elts, loop.iter.args):
+        if isinstance(arg, ast.Name):
+            got = reaching(fn, arg.id, loop)
+            arg = got if got is not None and not isinstance(got, Opaque) else arg
+        # `[T] if is_binary(T) else binarize(T)`: a binary tree is its own single refinement - of the SAME tree
+        if isinstance(arg, ast.IfExp):
+            tests = [c for c in calls_in(arg.test) if (dotted(c.func) or "").endswith("is_binary") and c.args]
+            single, many = (arg.body, arg.orelse) if isinstance(arg.body, (ast.List, ast.Tuple)) else (arg.orelse, arg.body)
+            if len(tests) == 1 and isinstance(single, (ast.List, ast.Tuple)) and len(single.elts) == 1 and isinstance(many, ast.Call) and (dotted(many.func) or "").endswith("binarize") and many.args:
+                tested, kept, refined = unparse(tests[0].args[0]), unparse(single.elts[0]), unparse(many.args[0])
+                if not (tested == kept == refined):
+                    res.fail(f"{MODEL}:ReconciliationInput.binarize/pairing", f"`{short(arg, 90)}`: the tree that is tested (`{tested}`), the tree kept as it is (`{kept}`) and the tree refined (`{refined}`) are not the same tree - a multifurcating `{refined}` is passed on unrefined whenever `{tested}` is binary", mod, loop)
+                    return res
+                arg = many
         if not (isinstance(arg, ast.Call) and (dotted(arg.func) or "").endswith("binarize") and arg.args and isinstance(var, ast.Name)):
             raise AnalysisError("binarize: product arguments are not refinements of the two trees")
         src[var.id] = unparse(arg.args[0])
